@@ -31,6 +31,7 @@ ListOrder == <<"Ord", "PartialOrd", "Eq", "PartialEq", "Hash">>
 DSeqOf(S) == SelectSeq(ListOrder, LAMBDA t : t \in S)
 AllD == (SUBSET CmpTraits) \ {{}}
 DChoices == IF DSETS = "closed" THEN {S \in AllD : SuperClosed(S)}
+            ELSE IF DSETS = "quick" THEN {S \in AllD : SuperClosed(S) \/ Cardinality(S) = 1}      \* + every trait derived alone
             ELSE IF DSETS = "tiny" THEN {{"Ord", "PartialOrd", "Eq", "PartialEq"}, {"PartialEq", "Hash"}}
             ELSE AllD
 
